@@ -176,6 +176,20 @@ opt_double CgroupContext__memory_growth(CgroupContext *self, CgroupContext_Error
   HAVOC(g_acc_min); HAVOC(g_acc_low); HAVOC(g_par_swap_max_eff); HAVOC(g_par_swap_free_eff); HAVOC(g_par_prot); HAVOC(g_acc_iocost); HAVOC(g_par_swap_util_eff); HAVOC(ghost_exc); } while (0)
 #define CANARY __CPROVER_assert(0, "canary: contract precondition satisfiable and function exit reachable")
 #define RAWEXP (g_acc_cur.val < (g_acc_min.val < g_acc_low.val ? g_acc_low.val : g_acc_min.val) ? g_acc_cur.val : (g_acc_min.val < g_acc_low.val ? g_acc_low.val : g_acc_min.val))
+/* ---- pgscan counter: an optional memory.stat key (C10: its absence is reported as unavailable, never thrown) ---- */
+#define MEMSTAT ((umap_str_t_int64_t)31)
+_Bool g_ms_ok, g_ms_has_pgscan; int64_t g_ms_pgscan; uint64_t g_ms_n;
+opt_umap_str_t_int64_t CgroupContext__memory_stat(CgroupContext *s, CgroupContext_Error *e) { opt_umap_str_t_int64_t o; o.has = g_ms_ok; o.val = MEMSTAT; return o; }
+uint64_t umap_str_t_int64_t__size(umap_str_t_int64_t m) { return g_ms_n; }
+mapit_pair_str_t_int64_t umap_str_t_int64_t__find(umap_str_t_int64_t m, str_t k)
+{ mapit_pair_str_t_int64_t it; it.map = m; it.n = g_ms_n; it.valid = 1; it.pos = (k == STR_pgscan && g_ms_has_pgscan) ? 0 : g_ms_n; return it; }
+pair_str_t_int64_t mapit_pair_str_t_int64_t__elem(hnd_t m, uint64_t pos) { pair_str_t_int64_t p; p.first = STR_pgscan; p.second = g_ms_pgscan; return p; }
+opt_int64_t CgroupContext__getPgScanCumulative(CgroupContext *self, CgroupContext_Error *err)
+  FN_REQ __CPROVER_requires(!g_ms_has_pgscan || g_ms_n > 0)
+  __CPROVER_assigns(ghost_exc; err != 0: *err)
+  __CPROVER_ensures(ghost_exc == 0) /*@C10,C15*/
+  __CPROVER_ensures(HAS(__CPROVER_return_value) == (g_ms_ok && g_ms_has_pgscan) && (!HAS(__CPROVER_return_value) || __CPROVER_return_value.val == g_ms_pgscan)) /*@C15*/;
+void h_getPgScanCumulative(void) { CgroupContext *s; CgroupContext_Error *e; HAVOC_CC(); HAVOC(g_ms_ok); HAVOC(g_ms_has_pgscan); HAVOC(g_ms_pgscan); HAVOC(g_ms_n); CgroupContext__getPgScanCumulative(s, e); CANARY; }
 void h_refresh(void) { CgroupContext *s; HAVOC_CC(); CgroupContext__refresh(s); CANARY; }
 void h_current_usage(void) { CgroupContext *s; CgroupContext_Error *e; HAVOC_CC(); CgroupContext__current_usage(s, e); CANARY; }
 void h_getAverageUsage(void) { CgroupContext *s; CgroupContext_Error *e; HAVOC_CC(); CgroupContext__getAverageUsage(s, e); CANARY; }
